@@ -110,15 +110,16 @@ def fp_drpchttp_context_unhex : List String :=
     "102", "+", "-", "97", "10", "case", "&&", "<=", "65", "<=", "70", "+", "-", "65", "10", "default", 
     "return", "0", "return", "+", "*"]
 def fp_drpchttp_context_unescape : List String :=
-  ["call:strings.Count", "s:%", "if", "==", "0", "return", "call:t.Grow", "-", "call:len", "*", 
-    "2", "for", "call:uint", "0", "<", "call:uint", "call:len", "++", "switch", "index", "case", 
-    "37", "if", ">=", "+", "2", "call:uint", "call:len", "return", "s:", "call:errs.New", "s:error unescaping %q: sequence ends", 
-    "call:unhex", "0", "index", "+", "1", "16", "if", "u!", "return", "s:", "call:errs.New", "s:error unescaping %q: invalid hex digit", 
-    "call:unhex", "index", "+", "2", "1", "if", "u!", "return", "s:", "call:errs.New", "s:error unescaping %q: invalid hex digit", 
+  ["call:strings.Count", "s:%", "if", "==", "0", "return", "if", "-", "call:len", "*", "2", ">", 
+    "0", "call:t.Grow", "for", "call:uint", "0", "<", "call:uint", "call:len", "++", "switch", 
+    "index", "case", "37", "if", ">=", "+", "2", "call:uint", "call:len", "return", "s:", "call:errs.New", 
+    "s:error unescaping %q: sequence ends", "call:unhex", "0", "index", "+", "1", "16", "if", "u!", 
+    "return", "s:", "call:errs.New", "s:error unescaping %q: invalid hex digit", "call:unhex", 
+    "index", "+", "2", "1", "if", "u!", "return", "s:", "call:errs.New", "s:error unescaping %q: invalid hex digit", 
     "call:t.WriteByte", "+=", "2", "default", "call:t.WriteByte", "index", "return", "call:t.String"]
 def fp_drpchttp_handler_getCode : List String :=
   ["s:unknown", "if", "call:drpcerr.Code", "!=", "0", "call:fmt.Sprintf", "s:drpcerr(%d)", "for", 
-    "0", "<", "100", "++", "if", "call:reflect.ValueOf().MethodByName", "call:reflect.ValueOf", 
+    "0", "&&", "<", "100", "!=", "++", "if", "call:reflect.ValueOf().MethodByName", "call:reflect.ValueOf", 
     "s:Code", "call:m.IsValid", "if", "call:m.Type", "&&", "&&", "==", "call:mt.NumIn", "0", "==", 
     "call:mt.NumOut", "1", "==", "call:mt.Out().Kind", "call:mt.Out", "0", "return", "call:m.Call().String", 
     "index", "call:m.Call", "0", "switch", "case", "call:v.Cause", "case", "call:v.Unwrap", "default", 
@@ -131,8 +132,9 @@ def fp_drpchttp_encoding_grpcRead : List String :=
     "1", "5", ">", "maxSize=4194304", "return", "call:errs.New", "s:message too large", "if", "call:readExactly", 
     "call:uint64", "call:errors.Is", "return", "if", "!=", "return", "return"]
 def fp_drpchttp_encoding_twirpRead : List String :=
-  ["if", "call:io.ReadAll", "call:io.LimitReader", "maxSize=4194304", "!=", "return", "if", ">", 
-    "call:len", "maxSize=4194304", "return", "call:errs.New", "s:message too large", "return"]
+  ["if", "call:io.ReadAll", "call:io.LimitReader", "+", "maxSize=4194304", "1", "!=", "return", 
+    "if", ">", "call:len", "maxSize=4194304", "return", "call:errs.New", "s:message too large", 
+    "return"]
 def fp_drpchttp_encoding_readExactly : List String :=
   ["call:make", "call:io.ReadFull", "return"]
 def fp_drpchttp_encoding_base64Write : List String :=
@@ -440,13 +442,14 @@ def fp_drpcpool_pool_Pool_Put : List String :=
   ["if", "||", "<", "0", "<", "0", "call:val.Close", "return", "if", "call:closed", "call:val.Closed", 
     "return", "call:p.mu.Lock", "defer", "call:p.mu.Unlock", "index", "if", "==", "call:new", "index", 
     "for", "&&", "!=", "0", ">=", "call:p.closeEntry", "call:local.removeEntry", "call:p.order.removeEntry", 
-    "for", "&&", "!=", "0", ">=", "index", "call:p.closeEntry", "call:local.removeEntry", "call:p.order.removeEntry", 
-    "if", "==", "0", "call:delete", "u&", "call:local.appendEntry", "call:p.order.appendEntry", 
+    "for", "&&", "!=", "0", ">=", "index", "call:p.closeEntry", "call:entLocal.removeEntry", "call:p.order.removeEntry", 
+    "if", "&&", "==", "0", "!=", "call:delete", "u&", "call:local.appendEntry", "call:p.order.appendEntry", 
     "call:p.log", "s:PUT", "if", ">", "0", "call:time.AfterFunc", "call:val.Close", "call:p.removeEntry"]
 def fp_drpcpool_entry_list_appendEntry : List String :=
   ["if", "==", "if", "!=", "call:node", "call:node", "++"]
 def fp_drpcpool_entry_list_removeEntry : List String :=
-  ["call:node", "if", "==", "if", "!=", "call:node", "if", "==", "if", "!=", "call:node", "--"]
+  ["call:node", "if", "return", "if", "==", "if", "!=", "call:node", "if", "==", "if", "!=", "call:node", 
+    "--"]
 def fp_drpcpool_conn_poolConn_Close : List String :=
   ["call:p.done.Close", "return"]
 def fp_drpcpool_conn_poolConn_Invoke : List String :=
